@@ -38,7 +38,7 @@ META={
    "One declaration in 9 HTML syntaxes / XML prologue variants after 13 openings, decoys (comments, script/style/title/textarea with fake metas, non-pragma metas), optional >4 KiB token, BOM; every token character and 35 real labels; limits incl. exactly the end of the declaration; a generated document not reported as HTML / XML at all is a violation too."+HELD,
    "Trusted: labels exclude '&' and quotes; XML '=' whitespace, BOM+XML and target case are informational only."),
  "C13":M("exploration","C13","generated tables / NDJSON streams at every limit (forward) and damaged tables / line soups judged per line by the reference recogniser (converse)",
-   "Rectangular CSV/TSV tables and NDJSON streams are detected at EVERY limit from just past the second line to len; tables with one damaged complete line (up to 530 rows) and line soups with malformed lines must not be reported; markup-like first cells; a verdict of another text format needs that format's pinned signature."+HELD,
+   "Rectangular CSV/TSV tables and NDJSON streams are detected at EVERY limit from just past the second line to len; tables with one damaged complete line (up to 2500 rows, the bad row also behind rows 1000 / 1024 / 2048) and line soups with malformed lines must not be reported; markup-like first cells; a verdict of another text format needs that format's pinned signature."+HELD,
    "Trusted: refjson for per-line completeness; 'complete line' = newline-terminated inside a cut header; comment-line dialect per the converse clause."),
  "C14":M("exploration","C14","model-based checking of Extend histories (independent walk + harness-side extension list), Lookup and earlier-value checks, fresh-process histories, concurrent registration rounds",
    "Thousands of random Extend histories (root, built-ins at any depth by name or alias, earlier extensions; 9 predicate kinds) are applied to the library and mirrored in the model; ~80 inputs x 3 limits per history are compared with the model and with the pre-history baseline, every name/alias is looked up (before and after registration; names and extensions are sometimes re-used; a registered name that is no longer found is a violation), values returned mid-history are re-read; a sample of histories runs in fresh processes without the reset hook; detections go through Detect, oddly chunked DetectReader and DetectFile. In one history in five 2-3 extensions are registered from a family table (the same alias slice, listing all members, handed to each Extend call); the model goes by a copy the library never sees."+HELD,
